@@ -306,8 +306,9 @@ func NewSugarDB(options ...func(sugarDB *SugarDB)) (*SugarDB, error) {
 			aof.WithStartRewriteFunc(sugarDB.startRewriteAOF),
 			aof.WithFinishRewriteFunc(sugarDB.finishRewriteAOF),
 			aof.WithGetStateFunc(func() map[int]map[string]internal.KeyData {
+				// Only called while the log is rewritten, which holds the command lock (see rewriteAOF).
 				state := make(map[int]map[string]internal.KeyData)
-				for database, data := range sugarDB.getState() {
+				for database, data := range sugarDB.copyState() {
 					state[database] = make(map[string]internal.KeyData)
 					for key, value := range data {
 						if keyData, ok := value.(internal.KeyData); ok {
@@ -658,6 +659,11 @@ func (server *SugarDB) rewriteAOF() error {
 	if server.rewriteAOFInProgress.Load() {
 		return errors.New("aof rewrite in progress")
 	}
+	// No data command runs while the log is rewritten: a write executed after the state has been copied
+	// into the preamble and before the old log is cut off would be acknowledged and then lost with the
+	// old log.
+	server.commandLock.Lock()
+	defer server.commandLock.Unlock()
 	if err := server.aofEngine.RewriteLog(); err != nil {
 		return err
 	}
